@@ -44,6 +44,10 @@ def alphabet(seed=0):
     ops += [["open", m, form] for m in ("r", "r+", "a") for form in ("name", "list")]
     # a proper prefix of the chain (all but the newest container): e.g. a stale view of the record
     ops += [["open", m, "prefix"] for m in ("r", "r+")]
+    # manifest record opened with the sidecar of its newest container named explicitly (manifest_file=)
+    ops += [["open", m, "mf-explicit"] for m in ("r", "r+")]
+    # exclusive create on an existing record: must be refused without effect
+    ops += [["open", m, "name"] for m in ("x", "w-")]
     ops += [["merge"], ["merge_again"]]
     return ops
 
@@ -125,6 +129,14 @@ class Life:
                     if len(cs) < 2:
                         return "na"
                     arg = [Path(self.dir) / f for f in cs[:-1]]
+                elif op[2] == "mf-explicit":
+                    cs = self.containers()
+                    side = Path(self.dir) / (cs[-1] + "mf.json")
+                    if self.kind != "mf" or not side.is_file():
+                        return "na"
+                    self.rec = self.cls([Path(self.dir) / f for f in cs], op[1], manifest_file=side)
+                    self.partial_view = False
+                    return "ok"
                 else:
                     arg = [Path(self.dir) / f for f in reversed(self.containers())]
                 self.rec = self.cls(arg, op[1])
@@ -182,7 +194,15 @@ class Life:
             # in-memory component (deduplication only): cached user blocks, in their dict order
             ub = getattr(self.rec, "_ublocks", None)
             ubk = tuple(os.path.basename(str(k)) for k in ub) if isinstance(ub, dict) else None
-            st = (self.rec.mode, bool(self.rec._has_writable), len(self.rec.__files__), ubk)
+            # ... and every plain attribute the record object carries (paths made relative to the scratch directory)
+            plain = tuple(
+                sorted(
+                    (k, repr(v).replace(self.dir, "<dir>"))
+                    for k, v in vars(self.rec).items()
+                    if isinstance(v, (str, int, bool, type(None), Path)) and not k.startswith("__")
+                )
+            )
+            st = (self.rec.mode, bool(self.rec._has_writable), len(self.rec.__files__), ubk, plain)
         return hashlib.blake2b(repr((st, shapes)).encode(), digest_size=16).digest()
 
     def close(self):
@@ -277,6 +297,52 @@ def expand(task):
     return out
 
 
+def check_baseless(task):
+    """Committed patches whose base container was moved away (a supported base-less file set):
+    no way of opening / creating by name except the explicitly truncating 'w' may touch them."""
+    kind, npatch, mode, follow = task
+    cls = ih5.record_class(kind)
+    d = env.fresh_dir("bl")
+    rec = None
+    try:
+        with cls(os.path.join(d, "rec"), "w") as r:
+            r["/a"] = 1
+            for i in range(npatch):
+                r.commit_patch()
+                r.create_patch()
+                r[f"/b{i}"] = i
+        os.rename(os.path.join(d, "rec.ih5"), os.path.join(d, "archived-base"))
+        side = os.path.join(d, "rec.ih5mf.json")
+        if os.path.exists(side):
+            os.rename(side, os.path.join(d, "archived-base-manifest"))
+        h0 = ih5lib.dir_hashes(d)
+        sig = {"kind": "baseless-committed-touched", "op": "open", "cls": kind, "mode": mode}
+        try:
+            with env.watchdog(env.step_timeout()):
+                rec = cls(os.path.join(d, "rec"), mode)
+                if follow == "write-close":
+                    try:
+                        rec["/zz"] = 5
+                    except Exception:
+                        pass
+                if follow != "none":
+                    rec.close()
+                    rec = None
+        except env.StepTimeout:
+            return {"sig": dict(sig, kind="nonterm"), "task": list(task), "config": {"seed": env.seed()}, "what": "did not terminate"}
+        except Exception:
+            pass
+        h1 = ih5lib.dir_hashes(d)
+        bad = [f for f in h0 if h1.get(f) != h0[f]]
+        if bad:
+            return {"sig": sig, "task": list(task), "config": {"seed": env.seed()}, "what": f"committed files {sorted(bad)} of a base-less file set were removed/changed by opening the name with mode {mode} ({follow})"}
+        return None
+    finally:
+        if rec is not None:
+            ih5.discard(rec)
+        env.rmtree(d)
+
+
 def init_key(kind):
     L = Life(kind)
     try:
@@ -329,6 +395,13 @@ def run(tier, seed):
             fam[kind] = {"states": len(seen), "transitions": trans, "completed_depth": done, "states_per_level": levels, "outcomes": outcomes}
             if frontier:
                 samples.append({"cls": kind, "history": frontier[len(frontier) // 2]})
+        bl_tasks = [(k, n, m, f) for k in ("ih5", "mf") for n in (1, 2) for m in ("r", "r+", "a", "x", "w-") for f in ("none", "close", "write-close")]
+        for t, v in zip(bl_tasks, pool.map("check_baseless", bl_tasks, chunk=4, item_deadline=180)):
+            if v == parallel.HANG:
+                violations.append({"sig": {"kind": "hang", "op": "open", "cls": t[0], "mode": t[2]}, "task": list(t), "config": {"seed": seed}, "what": "hung"})
+            elif v is not None:
+                violations.append(v)
+        fam["baseless"] = {"states": len(bl_tasks), "transitions": len(bl_tasks), "completed_depth": 1}
     cov = {
         "states": sum(f["states"] for f in fam.values()),
         "transitions": sum(f["transitions"] for f in fam.values()),
@@ -339,7 +412,7 @@ def run(tier, seed):
         "exhaustive": not capped,
         "samples": samples or [{"history": []}],
         "rule": "all histories over the lifecycle alphabet (8 write representatives, read, create/commit/discard patch, close(commit T/F), "
-        "open r/r+/a by name and by reversed file list, merge) up to the completed depth, deduplicated on (open state, mode, raw shape + committed flag "
+        "open r/r+/a by name and by reversed file list, by a proper prefix, with explicit manifest_file=, refused x/w-, merge, merge onto an existing target) up to the completed depth, deduplicated on (open state, mode, raw shape + committed flag "
         "of every container); monitor after every transition: sha256 of every file ever seen committed (own user-block reader) unchanged and present, "
         "committed chain is a prefix, first and latest committed file set reopen read-only in place and show the view at their commit",
     }
@@ -353,6 +426,8 @@ def run(tier, seed):
 
 def replay(data):
     worker_init({"ops": alphabet(data["config"].get("seed", 0)), "max_containers": 9})
+    if "task" in data:
+        return check_baseless(tuple(data["task"]))
     L, v, status = run_history(data["config"]["kind"], [list(o) for o in data["history"]], check_all=True)
     L.close()
     return v
